@@ -945,6 +945,11 @@ func runE3(p *Program, sp *Spec, c *Collector) {
 			}
 		}
 		c.Count("E3.pass."+ps.Name+".globals", len(gs))
+		if len(gs) == 0 {
+			// nothing mutable is touched: the pass is a function of its arguments (and of what it reads from the file system)
+			c.Ob(ps.Props, "E3.stateless", "pass:"+ps.Name, Discharged,
+				fmt.Sprintf("no mutable package-level variable is read or written by the %d functions reachable from %s", len(p.reach(all)), entryNames(pi.entries)), p.Pos(pi.entries[0].Pos()), true)
+		}
 		if ps.Kind == "listener" {
 			runE3Drivers(p, sp, c, a, pi)
 		}
